@@ -3523,19 +3523,22 @@ def build_unit(verif_root, repo, unit, security=None, force_degrade=None):
                             if sty != ty or tr is not None or not cfg_ok(it.attrs, unit_security[0]):
                                 continue
                             for sub in rscan.items_in(src, it.open_si + 1, it.end_si):
-                                if sub.kind == 'const' and sub.name == name and cfg_ok(sub.attrs, unit_security[0]):
+                                if sub.kind == 'const' and (sub.name == name or name == '*') and cfg_ok(sub.attrs, unit_security[0]):
                                     cands.append(sub)
-                    if len(cands) != 1:
+                    # `Type::*` = EVERY associated constant of the inherent impl(s), verbatim (so that a change which
+                    # starts using another constant of the table is judged instead of degrading the function)
+                    if (len(cands) != 1 and name != '*') or not cands:
                         raise Undecided('lost-anchor', 'const %s: %d candidates' % (sel, len(cands)))
-                    it = cands[0]
-                    kwsi = next(k for k in range(it.start_si, it.end_si) if src.s(k) == 'const')
-                    a, b = src.t(kwsi).pos, src.t(it.end_si).end
-                    txt = src.text[a:b]
-                    l0 = src.line_of(a)
-                    for k, raw_ln in enumerate(('pub ' + txt).split('\n')):
-                        out_lines.append((raw_ln, {'o': 'src', 'file': rel, 'line': l0 + k, 'fn': 'const ' + sel}))
-                    record.append({'item': 'const ' + sel, 'file': rel, 'lines': [l0, src.line_of(b)],
-                                   'sha256': hashlib.sha256(txt.encode()).hexdigest(), 'rewrites': [['R10', l0, 'visibility -> pub']]})
+                    for it in cands:
+                        kwsi = next(k for k in range(it.start_si, it.end_si) if src.s(k) == 'const')
+                        a, b = src.t(kwsi).pos, src.t(it.end_si).end
+                        txt = src.text[a:b]
+                        l0 = src.line_of(a)
+                        csel = sel if name != '*' else '%s::%s' % (ty, it.name)
+                        for k, raw_ln in enumerate(('pub ' + txt).split('\n')):
+                            out_lines.append((raw_ln, {'o': 'src', 'file': rel, 'line': l0 + k, 'fn': 'const ' + csel}))
+                        record.append({'item': 'const ' + csel, 'file': rel, 'lines': [l0, src.line_of(b)],
+                                       'sha256': hashlib.sha256(txt.encode()).hexdigest(), 'rewrites': [['R10', l0, 'visibility -> pub']]})
                     i += 1
                     continue
                 elif kind == 'const_exec':
